@@ -612,6 +612,9 @@ func evalMacroKase(k kase) (bad bool, expected, got string) {
 		return ra.key() != rb.key() || ra.isPanic(), rb.full(), ra.full()
 	case "binding-fails", "arg-eval-count":
 		return judgeSingle(k, runFresh(k.A))
+	case "result=reference":
+		ra := runFresh(k.A)
+		return ra.IsErr || ra.Tree != k.Expect || ra.Out != "", "VAL " + k.Expect + ` out=""`, ra.full()
 	}
 	return false, "", "unknown check " + k.Check
 }
